@@ -27,8 +27,8 @@
  *     <who>:<event>[:<args>]/<oracle results>><outputs>|<state>
  *   who     c = client session, s = server side (endpoint / the server session for the client's address), t = server session
  *           for the other address
- *   event   new | send:<K><mid>:<tok> | dg | ep:<src>:<kind> | tmo | rtx:<mid> | rel | free
- *   oracle  what GnuTLS answered inside (wrapped gnutls_* calls): env= hs= rec= snd= ck= rnd=
+ *   event   new[:fail] | send:<K><mid>:<tok> | dg | ep:<src>:<kind> | tmo | rtx:<mid> | rel | del | free
+ *   oracle  what GnuTLS answered inside (wrapped gnutls_* calls): env= hs= rec= snd= ck=
  *   outputs tx:<K>.<code>.<mid>.<tok> (PDU handed to coap_dtls_send) req:<tok>:<payload> rsp:<tok>:<code> nack:<reason>:<tok>
  *           ev:<name> bye alert cookie
  *   state   st=<session state>,tls=<0|1>,dq=<delay queue>,ca=<con_active>,if=<send queue nodes>  or  gone
@@ -201,7 +201,7 @@ int __wrap_gnutls_bye(gnutls_session_t g, gnutls_close_request_t how) {
 }
 int __wrap_gnutls_alert_send(gnutls_session_t g, gnutls_alert_level_t level, gnutls_alert_description_t desc) {
   int r;
-  OUT("alert");
+  if (!in_gnutls) OUT("alert");       /* nested = sent by a libcoap callback running INSIDE gnutls_handshake: the oracle's side */
   in_gnutls++; r = __real_gnutls_alert_send(g, level, desc); in_gnutls--;
   return r;
 }
@@ -620,9 +620,10 @@ static void step(char *line) {
     if (g_cs) {
       coap_address_copy(&g_caddr, &g_cs->addr_info.local);
       sim_sess_id(g_cs);
-      appendf(s_orc, sizeof(s_orc), "rnd=%u", (unsigned)g_cs->tx_mid);
-    } else
+    } else {
       g_cs_gone = 1;
+      strcpy(s_head, "c:new:fail");
+    }
     seg_close();
   }
   if (g_cs) {
